@@ -97,6 +97,13 @@ type c16Row struct {
 
 // c16ModeTexts: spellings of a mode file that all read as the same mode (the mode is the first word;
 // a second word that is not a date leaves the date unknown).
+func init() {
+	// what SetMode writes today; a token acquired yesterday evening is still younger than 24 hours
+	today := time.Now().UTC().Format("2006-01-02")
+	c16ModeTexts["on"] = append(c16ModeTexts["on"], "on "+today)
+	c16ModeTexts["local"] = append(c16ModeTexts["local"], "local "+today)
+}
+
 var c16ModeTexts = map[string][]string{
 	"on":    {"on 2020-01-01", "on", "on\n", "on  2020-01-01", "on 2020-1-1", " on 2020-01-01 \n"},
 	"local": {"local", "local 2020-02-02", "local\n", "local  x"},
